@@ -240,10 +240,17 @@ def check_list_and_combination(ctx, Z, N, rng):
             sub = pure_call(ctx, "zernikeArray", Z.zernikeArray, form, N, norm, rot)
             ok = np.shape(sub) == (len(idx), N, N) and np.array_equal(sub, full[np.array(idx) - 1])
             ctx.check(ok, "zernikeArray:list_vs_count:" + ("rot" if rot else "norot"), "array built from list %s differs from slices of the count-built array" % (idx,), wit)
-        coeffs = [rng.standard_normal(J), np.where(rng.random(J) < 0.2, rng.standard_normal(J), 0), rng.standard_normal(J) * 1e6][int(rng.integers(0, 3))]
+        coeffs = [rng.standard_normal(J), np.where(rng.random(J) < 0.2, rng.standard_normal(J), 0), rng.standard_normal(J) * 1e6,
+                  rng.standard_normal(J) * 1e-9, np.where(rng.random(J) < 0.5, 1.0, 1e-9) * rng.standard_normal(J)][int(rng.integers(0, 5))]
         ph = pure_call(ctx, "phaseFromZernikes", Z.phaseFromZernikes, coeffs, N, norm, rot)
         want = np.tensordot(coeffs, full, axes=1)
         sc = float(np.abs(coeffs).max() * np.abs(full).max()) + 1e-300
+        small = np.abs(coeffs) < 1e-6 * np.abs(coeffs).max()
+        if small.any() and (~small).any():      # the small terms must be present too: judge them on their own scale
+            ph_small = Z.phaseFromZernikes(np.where(small, coeffs, 0.0), N, norm=norm, rot=rot)
+            want_small = np.tensordot(np.where(small, coeffs, 0.0), full, axes=1)
+            scs = float(np.abs(coeffs[small]).max() * np.abs(full).max()) + 1e-300
+            ctx.close("phase_small_terms", ph_small, want_small, 1e-12 * scs * J, "phaseFromZernikes:linear_combination:small_coefficients", wit, scale=scs)
         ctx.case("phaseFromZernikes", key=(N, J, norm, rot, float(coeffs[0])), nontrivial=True)
         ctx.close("phase_is_linear_combination", ph, want, 1e-12 * sc * J, "phaseFromZernikes:linear_combination:" + ("rot" if rot else "norot"), wit, scale=sc)
         ph_l = Z.phaseFromZernikes(list(coeffs), N, norm=norm, rot=rot)
